@@ -30,7 +30,12 @@ P6a == [k |-> 3, port |-> 65535, f |-> 1, six |-> TRUE]
 P6b == [k |-> 4, port |-> 256, f |-> 2, six |-> TRUE]
 P6m == [k |-> 5, port |-> 6881, f |-> 1, six |-> TRUE]     \* an IPv4-mapped IPv6 address: still an 18-byte entry of added6
 NoF(ps) == [k \in 1..Len(ps) |-> [ps[k] EXCEPT !.f = 0]]
-Lists == {<<>>, <<P4a>>, <<P6a>>, <<P4a, P6a>>, <<P6a, P4b, P6b>>, <<P4a, P4b>>, <<P6m>>, <<P4a, P6m>>}
+\* longer lists, every peer with flags of its own: the flags string is indexed by peer, the peer list by bytes
+P4n(n) == [k |-> 10 + n, port |-> 7000 + n, f |-> n, six |-> FALSE]
+P6n(n) == [k |-> 20 + n, port |-> 8000 + n, f |-> n, six |-> TRUE]
+Long4 == [n \in 1..4 |-> P4n(n)]
+Long6 == [n \in 1..10 |-> P6n(n)]
+Lists == {<<>>, <<P4a>>, <<P6a>>, <<P4a, P6a>>, <<P6a, P4b, P6b>>, <<P4a, P4b>>, <<P6m>>, <<P4a, P6m>>, Long4, Long6, Long4 \o Long6}
 MPx == {[k |-> "ExtendedPex", sub |-> s, added |-> a, dropped |-> NoF(d)] : s \in {1, 5}, a \in Lists, d \in Lists}
 MDh == {[k |-> "ExtendedDontHave", sub |-> s, index |-> v] : s \in {3, 7}, v \in Vals}
 
